@@ -21,7 +21,7 @@ INVARIANTS ProgramFrozen NoLaunder WellFormed NoSpareOnViews
 CHECK_DEADLOCK FALSE
 """
 KEYS = ["a", "b", "c"]
-PRELUDE = "(set 'g1 '(3 1 2)) (set 'g2 (vector 5 4 6 2)) (set 'g3 (list 7 9 8)) (set 'g4 (sorted-map \"b\" 1 'a 2))"
+PRELUDE = "(set 'g1 '(3 1 2)) (set 'g2 (vector 5 4 6 2)) (set 'g3 (list 7 9 8)) (set 'g4 (sorted-map \"b\" 1 \"a\" 2))"
 
 
 def arg(a):
@@ -79,7 +79,8 @@ def norm_model(r):
     if k == "cut":
         return ("cut",)
     if k == "map":
-        return ("map", tuple((e["k"], norm_model(e["v"])) for e in r["ents"] if e["present"]))
+        # (the spelling a key is shown in - symbol once it has been given as a symbol, until the entry is removed - is part of the rendering)
+        return ("map", tuple((e["k"], bool(e.get("sym")), norm_model(e["v"])) for e in r["ents"] if e["present"]))
     el = tuple(norm_model(e) for e in r["elems"])
     if k == "list" and not el:
         return ("nil",)
@@ -103,7 +104,7 @@ def norm_real(v, depth=5):
     if t == "map":
         ents = []
         for kk, vv in (v.get("e") or []):
-            ents.append((kk["s"], norm_real(vv, depth - 1)))
+            ents.append((kk["s"], kk["t"] == "sym", norm_real(vv, depth - 1)))
         return ("map", tuple(ents))
     return ("other", json.dumps(v, sort_keys=True)[:100])
 
